@@ -329,6 +329,21 @@ def gen_session_facts(root, report):
                     and isinstance(n.value, ast.Call) and ast.unparse(n.value.func) == 'os.path.join' and n.value.args:
                 sav_expr = ast.unparse(n.value.args[-1])
     load_first = load_line is not None and grammar_line is not None and load_line < grammar_line
+    # what the save file is given (every `save_config.set(section, key, value)` of pcfg_guesser.py: function, key, value expression) and
+    # what `load_save` takes from it (every assignment to `program_info[...]` in it: key, value expression)
+    cfg_sets, load_assigns = [], []
+    for fn_ in [n for n in ast.walk(mtree) if isinstance(n, ast.FunctionDef)]:
+        for n in ast.walk(fn_):
+            if isinstance(n, ast.Call) and ast.unparse(n.func) == 'save_config.set' and len(n.args) == 3:
+                key_ = n.args[1].value if isinstance(n.args[1], ast.Constant) else ast.unparse(n.args[1])
+                cfg_sets.append((fn_.name, str(key_), ast.unparse(n.args[2]).replace('"', "'").replace(' ', '')))
+            if fn_.name == 'load_save' and isinstance(n, (ast.Assign, ast.AugAssign)):
+                for tgt in (n.targets if isinstance(n, ast.Assign) else [n.target]):
+                    if isinstance(tgt, ast.Subscript) and ast.unparse(tgt.value) == 'program_info':
+                        k_ = tgt.slice.value if isinstance(tgt.slice, ast.Constant) else ast.unparse(tgt.slice)
+                        load_assigns.append((str(k_), ast.unparse(n.value).replace('"', "'").replace(' ', '')))
+    report['save_config_sets'] = cfg_sets
+    report['load_save_assigns'] = load_assigns
     uuid_refuses = uuid_line is not None and uuid_line[1] == 'NotEq'
     # the .omn file: the name expression at the save site and at the load site (lib_guesser/pcfg_grammar.py), 
     gtree = ast.parse(open(os.path.join(root, 'lib_guesser/pcfg_grammar.py'), encoding='utf-8').read())
@@ -383,6 +398,14 @@ def removesOmenOption : Bool := {'true' if removes_option else 'false'}
 
 /-- the kinds of statement whose execution depends on a test that reads the guess limit (in `run` and the methods it calls) -/
 def limitDependentStatements : List String := [{', '.join(lean_str(x) for x in limit_dep)}]
+
+/-- every `save_config.set(section, key, value)` of `pcfg_guesser.py`: (function, key, value expression) -/
+def saveConfigSets : List (String × String × String) :=
+  [{', '.join('(' + ', '.join(lean_str(x) for x in t3) + ')' for t3 in cfg_sets)}]
+
+/-- every assignment to `program_info[...]` in `load_save`: (key, value expression) -/
+def loadSaveAssigns : List (String × String) :=
+  [{', '.join('(' + lean_str(a) + ', ' + lean_str(b) + ')' for a, b in load_assigns)}]
 
 /-- `keypress` keeps a quit request when printing the status fails -/
 def keepsQuitOnStatusFailure : Bool := {'true' if keeps_q else 'false'}
